@@ -57,6 +57,12 @@ func (c *FnCtx) builtin(fr *Frame, st *State, b *ssa.Builtin, args []Val, call *
 		x := args[0]
 		switch xt := x.T.Underlying().(type) {
 		case *types.Slice:
+			if x.E == nilSlice {
+				return &Val{T: types.Typ[types.Int], E: "0"}
+			}
+			if l, ok := c.sliceLen[x.E]; ok {
+				return &Val{T: types.Typ[types.Int], E: l}
+			}
 			return &Val{T: types.Typ[types.Int], E: c.sc.Define("len", sInt, "(s-len "+x.E+")")}
 		case *types.Basic:
 			return &Val{T: types.Typ[types.Int], E: c.sc.Define("len", sInt, "(strlen "+x.E+")")}
@@ -322,6 +328,15 @@ func (c *FnCtx) callUnknown(fr *Frame, st *State, fv Val, ft types.Type, args []
 	o := c.obligation(st, "safe", "nilfunc", "(not (= "+fv.E+" 0))", pos)
 	o.Desc = "call of nil function value"
 	c.assume(st, "(not (= "+fv.E+" 0))")
+	if cb := c.eng.callbackSpec(ft); cb == nil || !cb.Pure {
+		if r, ok := c.dispatchClosure(fr, st, fv, ft, args, resT, pos); ok {
+			return r
+		}
+	}
+	return c.callUnknownOpaque(fr, st, fv, ft, args, resT, pos)
+}
+
+func (c *FnCtx) callUnknownOpaque(fr *Frame, st *State, fv Val, ft types.Type, args []Val, resT *types.Tuple, pos token.Pos) *Val {
 	cb := c.eng.callbackSpec(ft)
 	if cb != nil && cb.Pure {
 		c.assumed["callback "+cb.Name+" is a deterministic function of its arguments"] = true
@@ -461,4 +476,41 @@ func (c *FnCtx) tryEvalBool(env *Env, e Expr) (g string, ok bool) {
 		}
 	}()
 	return c.evalBool(env, e), true
+}
+
+// closureTerm turns a loop-free, side-effect-free function value into SMT terms over symbolic parameters:
+// it returns the result terms and the conjunction of the safety conditions met inside the body.
+func (c *FnCtx) closureTerm(fr *Frame, st *State, clo *Closure, params []Val) (res []Val, safe string) {
+	if clo == nil || len(clo.Fn.Blocks) == 0 {
+		c.unsupported("function value is not a known closure")
+	}
+	for _, b := range clo.Fn.Blocks {
+		for _, p := range b.Preds {
+			if isBackEdge(p, b) {
+				c.unsupported("loop inside a closure that must be turned into a term")
+			}
+		}
+	}
+	savedPure, savedObs := c.sc.pure, c.pureObs
+	c.sc.pure, c.pureObs = true, nil
+	defer func() { c.sc.pure, c.pureObs = savedPure, savedObs }()
+	nf := c.newFrame(clo.Fn, fr)
+	nf.free = clo.Bindings
+	for k, p := range clo.Fn.Params {
+		a := params[k]
+		a.T = p.Type()
+		nf.vals[p] = a
+	}
+	ps := st.clone()
+	ps.guard = "true"
+	c.stack = append(c.stack, clo.Fn)
+	rst, rvals := c.execBody(nf, ps)
+	c.stack = c.stack[:len(c.stack)-1]
+	// a closure used as a predicate must not write the heap
+	for k, v := range rst.heap {
+		if st.heap[k] != v && !strings.HasPrefix(k, "ghost$") {
+			c.unsupported("closure %s writes heap component %s", clo.Fn.Name(), k)
+		}
+	}
+	return rvals, And(c.pureObs...)
 }
